@@ -94,6 +94,76 @@ def run(ctx):
                     if isinstance(a, ast.Constant) and isinstance(a.value, str) and a.value in accepted | {"chk", "texts"}:
                         emitted.add(a.value)
     ctx.check("bundle-kinds", f"{V4}:BundleWriter", emitted <= accepted and len(emitted) >= 5, f"record kinds emitted {sorted(emitted)} are accepted by encode_name {sorted(accepted)}", construct=str(sorted(emitted - accepted)))
+    # ---- patch verification compares the patches up to line-end damage only (K9 over the normalising regexes) ---------
+    fv = repo.func(MD, "MergeDirective2._verify_patch")
+    wv = f"{MD}:MergeDirective2._verify_patch"
+    srcs = [fv]
+    for c in calls_in(fv):
+        if call_recv(c) in ("self", "MergeDirective2", "cls") and call_attr(c) not in ("_generate_diff",):
+            h = repo.resolve_method(MD, "MergeDirective2", call_attr(c))
+            if h is not None and h[2] not in srcs:
+                srcs.append(h[2])
+    import re._parser as sp  # noqa: PLC0415
+
+    def consumes_line_end(pattern):
+        """True when every match of the pattern contains a CR or LF (a mandatory literal at top level)."""
+        try:
+            p_ = sp.parse(pattern)
+        except Exception:
+            return False
+        for op, av in p_:
+            if op == sp.LITERAL and av in (10, 13):
+                return True
+            if op == sp.MAX_REPEAT and av[0] >= 1 and any(o == sp.LITERAL and a in (10, 13) for o, a in av[2]):
+                return True
+        return False
+
+    subs = []
+    for f in srcs:
+        for c in calls_in(f):
+            if norm(c.func) in ("re.sub", "re.subn") and c.args and isinstance(c.args[0], ast.Constant):
+                subs.append((c.args[0].value, const_value(c.args[1]) if len(c.args) > 1 else None))
+    ctx.require(len(subs) >= 2, f"{wv}: normalising substitutions not found")
+    for pat, rep_ in sorted(set(subs), key=repr):
+        ctx.check("verify-normalises-line-ends-only", wv, consumes_line_end(pat) and rep_ == b"\n", f"substitution {pat!r} -> {rep_!r} only rewrites line ends (line-ending conversion / trailing blanks)", construct=f"{pat!r} -> {rep_!r}", message=f"_verify_patch normalises with {pat!r} -> {rep_!r}, which also rewrites text inside a line: a preview patch whose indentation or spacing was altered still verifies although it no longer shows what the bundle does")
+    cmp_ = [n for f in srcs[:1] for n in ast.walk(f) if isinstance(n, ast.Compare) and len(n.ops) == 1 and isinstance(n.ops[0], ast.Eq)]
+    ctx.check("verify-normalises-line-ends-only", wv, len(cmp_) == 1 and any(isinstance(r, ast.Return) and r.value is cmp_[0] for r in walk_own(fv)), "the verdict is the equality of the two normalised patches")
+    # ---- record names: encode_name / decode_name are inverse, slashes in any component included (K8 table) -------
+    from ..absint import Interp, Opaque, Raised, Unsupported
+
+    fe_ = repo.func(V4, "BundleWriter.encode_name")
+    fd_ = repo.func(V4, "BundleReader.decode_name")
+
+    def hook(interp, call, name, ev_args, env):
+        if name == "re.split":
+            import re as _re
+
+            args, kw = ev_args()
+            return _re.split(*args, **kw)
+        return NotImplemented
+
+    it = Interp(call_hook=hook)
+    ids = [b"a", b"a/b", b"a//b", b"x-1"]
+    rows = [("info", None, None)] + [(k, r, None) for k in ("revision", "inventory", "signature") for r in ids] + [("file", r, f) for r in ids for f in ids]
+    bad = []
+    try:
+        for kind, rev, fid in rows:
+            args = {"content_kind": kind, "revision_id": rev, "file_id": fid}
+            if fe_.args.args and fe_.args.args[0].arg == "self":
+                args["self"] = Opaque("writer")
+            enc = it.call(fe_, args)
+            dargs = {"name": enc}
+            if fd_.args.args and fd_.args.args[0].arg == "self":
+                dargs["self"] = Opaque("reader")
+            dec = it.call(fd_, dargs)
+            if tuple(dec) != (kind, rev, fid):
+                bad.append(((kind, rev, fid), enc, tuple(dec)))
+    except (Raised, Unsupported) as e_:
+        from ..index import AnalysisError
+
+        raise AnalysisError(f"{V4}: encode_name/decode_name not evaluable: {e_}")
+    ctx.fact(len(rows))
+    ctx.check("record-name-roundtrip", f"{V4}:BundleWriter.encode_name/BundleReader.decode_name", not bad, f"decode_name(encode_name(kind, revision_id, file_id)) gives the components back for all {len(rows)} tabled combinations (ids with and without '/')", construct=str(bad[:2]), message=f"bundle record names do not round-trip, e.g. {bad[:2]}: a revision or file id containing '/' is written in a form the reader splits differently — the record is installed under another key or not found")
     inst = repo.func(V4, "RevisionInstaller._install_in_write_group")
     _it = [t for t in __import__("sa.astutil", fromlist=["x"]).loop_targets_nested(inst, lambda t, n: "iter_records" in t)]
     ctx.require(len(_it) == 1 and len(_it[0]) >= 5, f"{V4}:RevisionInstaller._install_in_write_group: record loop not found")
@@ -107,6 +177,8 @@ def run(ctx):
 
 
 MUTANTS = [
+    Mutant("verification ignores runs of blanks", MD, "        # Strip trailing whitespace\n        calculated_patch = re.sub(b\" *\\n\", b\"\\n\", calculated_patch)\n        stored_patch = re.sub(b\" *\\n\", b\"\\n\", stored_patch)\n", "        # Strip trailing whitespace\n        calculated_patch = re.sub(b\"[ \\t]+\", b\" \", re.sub(b\" *\\n\", b\"\\n\", calculated_patch))\n        stored_patch = re.sub(b\"[ \\t]+\", b\" \", re.sub(b\" *\\n\", b\"\\n\", stored_patch))\n", expect="verify-normalises-line-ends-only"),
+    Mutant("file ids written unescaped", V4, "        names = [\n            n.replace(b\"/\", b\"//\")\n            for n in (content_kind.encode(\"ascii\"), revision_id, file_id)\n            if n is not None\n        ]\n", "        names = [content_kind.encode(\"ascii\")]\n        if revision_id is not None:\n            names.append(revision_id.replace(b\"/\", b\"//\"))\n        if file_id is not None:\n            names.append(file_id)\n", expect="record-name-roundtrip"),
     Mutant("source_branch no longer written", MD, "        for key in (\"source_branch\", \"message\"):\n            if self.__dict__[key] is not None:", "        for key in (\"message\",):\n            if self.__dict__[key] is not None:", expect="directive-keys"),
     Mutant("format 2 reader loses base_revision_id", MD, "            \"message\",\n            \"base_revision_id\",\n        ):", "            \"message\",\n        ):", expect="directive-keys"),
     Mutant("marker capitalised on the writer only", MD, "            lines.append(b\"# Begin patch\\n\")", "            lines.append(b\"# Begin Patch\\n\")", expect="payload-markers"),
